@@ -59,7 +59,7 @@ theorem cutStep_one (C : CompressFn) (g : Gen.Writer) (bw : BW) (hm : mBW g.inde
 
 
 /-- the step at an index `i + 1 ≥ 2`: the model's one unrolling of `cutLevels` -/
-theorem cutStep_sim (cd : Codec) (hcd : ∀ b, (cd.compress b).length < 2 ^ 64) (g : Gen.Writer) (i : Nat)
+theorem cutStep_sim (cd : Codec) (hcd : ∀ b : Bytes, b.length < 2 ^ 63 → (cd.compress b).length < 2 ^ 64) (g : Gen.Writer) (i : Nat)
     (hi : 1 ≤ i) (cur parent : BW) (hlen : i + 1 < g.index_block_writers.length)
     (hcur : mBW g.index_block_writers[i + 1]! cur) (hpar : mBW g.index_block_writers[i]! parent)
     (hsc : Small (2 ^ 62) (2 ^ 31) g.index_block_writers[i + 1]!)
@@ -107,7 +107,7 @@ theorem cutStep_sim (cd : Codec) (hcd : ∀ b, (cd.compress b).length < 2 ^ 64) 
 
 
 /-- **The level loop of `Writer::insert` is the model's `cutLevels`.** -/
-theorem cut_loop (cd : Codec) (hcd : ∀ b, (cd.compress b).length < 2 ^ 64) :
+theorem cut_loop (cd : Codec) (hcd : ∀ b : Bytes, b.length < 2 ^ 63 → (cd.compress b).length < 2 ^ 64) :
     ∀ (m : Nat) (g : Gen.Writer) (idx : List BW) (log : List Emitted),
     mIdx g.index_block_writers idx → m < idx.length →
     (∀ t, t < m → Small (2 ^ 61) (2 ^ 30) g.index_block_writers[t]!) →
